@@ -967,6 +967,71 @@ def _content_offset(M, x, syn, enc):
     return pos if pos > 0 else None
 
 
+def _open_contents(M, der):
+    """(row index, DER of the open-type content) for every frame inside the DER of a decoded PDU value."""
+    mod = M.mod
+    node = ref_ber.parse_tlv(der)
+    nest = M.spec["nest"]
+    if nest is None:
+        frames = [node]
+    elif nest == "seqof":
+        frames = node.get("children", [])
+    else:
+        frames = node.get("children", [])[1:2]
+    chains = ref_ber.member_chains(mod, M.frame)
+    out = []
+    for fn in frames:
+        kids = list(fn.get("children", []))
+        row = None
+        for m, ch in zip(M.frame.members, chains):
+            if not kids:
+                break
+            k = kids[0]
+            ktag = (("UNIVERSAL", "APPLICATION", "CONTEXT", "PRIVATE")[k["cls"]], k["num"])
+            if m.type.kind == "OPEN":
+                if ch and ktag != ch[0]:
+                    continue
+                kids.pop(0)
+                if row is None:
+                    continue
+                if ch:
+                    inner = k.get("children", [])
+                    if len(inner) == 1:
+                        out.append((row, bytes(der[inner[0]["off"]:inner[0]["end"]])))
+                else:
+                    out.append((row, bytes(der[k["off"]:k["end"]])))
+                continue
+            if not ch or ktag != ch[0]:
+                if m.optional:
+                    continue
+                break
+            kids.pop(0)
+            if m.type.flags.get("field") == "&id":
+                leaf = k
+                while leaf.get("children"):
+                    leaf = leaf["children"][0]
+                val = leaf.get("value", b"")
+                for ri, r in enumerate(M.rows):
+                    want = ref_ber.oid_content(r["id"]) if M.spec["idkind"] == "OID" else ref_ber.int_content(r["id"])
+                    if want == val:
+                        row = ri
+    return out
+
+
+def _row_matter(sess, M, der_hex, syn):
+    """Is an instability of an accepted frame already present when the open-type content is handled by its row type alone?"""
+    try:
+        contents = _open_contents(M, drv.unhex(der_hex))
+    except (ref_ber.TLVError, IndexError, KeyError):
+        return None
+    osyn = {"ber": "der", "uper": "uper", "oer": "oer", "xer": "xer"}[syn]
+    for ri, content in contents:
+        r = sess.cmd("tx %s ber %s %s" % (M.rows[ri]["t"], drv.hexs(content), osyn))
+        if r.get("rc") != "0" or r.get("b." + osyn) in (None, "fail") or r.get("rc." + osyn) != "0" or r.get("d." + osyn) != "same":
+            return True
+    return False
+
+
 def check_mutation(sess, M, x, acc, cache, classes):
     """Oracle (4)."""
     syn, edits = x["mut"]
@@ -1009,7 +1074,17 @@ def check_mutation(sess, M, x, acc, cache, classes):
     classes += ["mut." + syn, "mut.rc%s" % r.get("rc")] + ["edit." + e[0] for e in edits]
     # (an accepted value the encoders refuse — e.g. a GeneralizedTime string the DER encoder cannot normalise — is a row
     # codec matter, tolerated here exactly as in C04)
-    return [("mut." + c, t) for c, t in c04.judge(r, classes)]
+    probs = []
+    for c, t in c04.judge(r, classes):
+        if c == "unstable" and r.get("der") not in (None, "fail"):
+            # value instabilities of a row type (e.g. the UPER codec dropping trailing zero bits of a BIT STRING) belong
+            # to C01/C04: they are recognised by giving the decoded open-type content to the row type alone
+            rm = _row_matter(sess, M, r["der"], syn)
+            if rm is None or rm:
+                acc.excluded["row-codec.unstable-accepted-value." + syn] += 1
+                continue
+        probs.append(("mut." + c, t))
+    return probs
 
 
 def run_case(sess, M, x, acc, cache, probe=False):
@@ -1512,8 +1587,8 @@ def main(argv):
     for c in [c for c in os.environ.get(ENV_ASSUME, "").split(",") if c]:
         KNOWN.known.setdefault((PID, c), "class=%s (assumed listed through %s: test only)" % (c, ENV_ASSUME))
         chk.assumptions.append("TEST ONLY: class %s treated as listed through %s" % (c, ENV_ASSUME))
-    nm = a.modules or chk.pick(170, 700)
-    nv = a.values or chk.pick(110, 300)
+    nm = a.modules or chk.pick(220, 700)
+    nv = a.values or chk.pick(130, 300)
     variants = ("asan", "fuzz") if chk.thorough else ("asan",)
     _, _, bt = build.warm(variants)
     chk.extra_coverage["build_s"] = round(bt, 1)
